@@ -43,6 +43,8 @@ type C05Case struct {
 	Relay   string         `json:"relay_state"`
 	Mut     []Defect       `json:"mutations,omitempty"`
 	Noise   bool           `json:"noise,omitempty"`
+	// KeyFault: the response-signing key retrieval fails while the request is served (the IdP reads it to build its own descriptor)
+	KeyFault string `json:"key_fault,omitempty"`
 }
 
 var c05PostMutations = []Defect{
@@ -91,6 +93,9 @@ func genC05Case(t *rapid.T) C05Case {
 		c.KeyInfo = rapid.IntRange(0, 3).Draw(t, "keyinfo") != 0
 	}
 	c.Noise = rapid.IntRange(0, 2).Draw(t, "noise") == 0
+	if rapid.IntRange(0, 7).Draw(t, "keyfault") == 0 {
+		c.KeyFault = rapid.SampledFrom([]string{"error", "nil", "emptycert"}).Draw(t, "keyfaultkind")
+	}
 	n := rapid.SampledFrom([]int{0, 1, 1, 1, 2}).Draw(t, "nmut")
 	cat := c05PostMutations
 	if c.Binding == "redirect" {
@@ -552,6 +557,9 @@ func c05Run(c C05Case) c05Outcome {
 	w := mustBuild(wspec)
 	if c.Noise {
 		runNoise(w, wspec)
+	}
+	if c.KeyFault != "" {
+		w.Store.SetFaults([]world.Fault{{Op: "GetResponseSigningKey", Occurrence: 0, Kind: c.KeyFault}})
 	}
 	now := time.Now()
 	rd := c05Render(c, now)
